@@ -29,9 +29,34 @@ def outcomes(seed, n):
         ns["SemiT"].equals(5 * ns["Second"])
         outcomes._declared = True
     extra = ["Lone", "Semi", "SemiT", "Prod"]
+    # free-standing units of base and derived dimensions (no definition connects them to anything)
+    for nm, dim in (("LoneT", measured.Time), ("LoneM", measured.Mass), ("Spd", measured.Speed), ("Frc", measured.Force), ("Prs", measured.Pressure), ("Ar", measured.Area)):
+        ns[nm] = mk(dim, tag + nm.lower())
+    spell = {"L": ["Meter", "Lone", "Semi", "Foot"], "T": ["Second", "LoneT", "SemiT", "Hour"], "M": ["Kilogram", "LoneM", "Pound"],
+             "V": ["Spd", "(Meter / Second)", "(Lone / LoneT)", "Knot", "(Semi / Second)"],
+             "F": ["Frc", "Newton", "(Kilogram * Meter / Second**2)", "(LoneM * Lone / LoneT**2)", "PoundForce"],
+             "P": ["Prs", "Pascal", "(Frc / Meter**2)", "(Newton / Lone**2)", "PSI"],
+             "A": ["Ar", "(Meter**2)", "(Lone * Meter)", "Acre", "(Semi**2)"], "E": ["Prod", "Joule", "(Frc * Lone)", "(Newton * Semi)"]}
+
+    def respell():
+        """two expressions of one dimension, factor by factor in different spellings, optionally times U/V with dim U = dim V"""
+        ks = [rng.choice(sorted(spell)) for _ in range(rng.choice([1, 2, 2, 3]))]
+        es = [rng.choice([1, 1, -1, 2]) for _ in ks]
+        def side():
+            return "(" + " * ".join("%s**%d" % (rng.choice(spell[k]), e) if e != 1 else rng.choice(spell[k]) for k, e in zip(ks, es)) + ")"
+        a, b = side(), side()
+        if rng.random() < 0.5:
+            k = rng.choice(sorted(spell))
+            u, v = rng.sample(spell[k], 2)
+            b = "(%s * %s / %s)" % (b, u, v)
+        return (a, b) if rng.random() < 0.5 else (b, a)
+
     out = []
     for i in range(n):
-        if rng.random() < 0.35:
+        r0 = rng.random()
+        if r0 < 0.3:
+            a, b = respell()
+        elif r0 < 0.55:
             # mix in the synthetic units: same shape, one factor replaced
             a, b = g.pair()
             u = rng.choice(extra)
@@ -91,7 +116,7 @@ def run(tier, seed):
                 if ndiff <= 2:
                     failures.append({"key": "dash-O:differs", "desc": "%s gives %s by default and %s under -O" % (src, res, res2), "src": src, "seed": seed, "n": n, "mode": "O"})
     return {"evaluations": 2 * len(outs), "distinct": len(distinct), "failures": failures[:8], "samples": samples,
-            "rule": "C04 pair space plus synthetic unconnected / partially connected / product-defined units; in_unit + - == < sorted; every outcome recorded "
+            "rule": "C04 pair space plus synthetic unconnected / partially connected / product-defined units and free-standing units of derived dimensions re-spelt factor by factor; in_unit + - == < sorted; every outcome recorded "
                     "under the default interpreter and under python -O and compared; distinct = distinct expressions", "bound": "%d cases x 2 modes" % n}
 
 
